@@ -316,7 +316,10 @@ class Theory:
         
         """
         if seq.rule == "":
-            # Empty line in the proof
+            # Empty line in the proof. It is not checked, so it cannot
+            # state a theorem for later steps to cite.
+            if seq.th is not None:
+                raise CheckProofException("empty line cannot state a theorem")
             return None
 
         if seq.rule == "sorry":
